@@ -13,7 +13,8 @@ resume with non-matching totals): full strength, not "no resume".
 Where the forwarded tokens are is a statement about the chain's ledgers: `C01_located` proves, for
 every history of the chain model that satisfies the honest-environment conditions (DESIGN.md §12),
 that everything forwarded toward the staker is in flight to it, delivered to it, or refunded and
-still earmarked for re-send to it.  Not proved: the corollary about the staker's own holdings on
+still earmarked for re-send to it, and `C01_backed` that the reported staked total is backed by
+exactly those tokens.  Not proved: the corollary about the staker's own holdings on
 the native chain (what the staker does with delivered tokens is outside the model).
 -/
 namespace MW.Props.C01
@@ -130,6 +131,26 @@ theorem C01_located {env : Env} {info : Info} {msg : InstantiateMsg} {c0 : CStat
     locW r.1.c.config.native.staker r.1.c.config.proto.ibcDenom r.1.pkts
       + locC r.1.c.config.native.staker r.1.c.config.proto.ibcDenom r.1.c = r.2.fwd :=
   (world_history_winv hi self pfx t hgt evs hok).f1
+
+open MW.Chain in
+/-- **C01 on the chain's ledgers, every history.**  Along every history of the chain model that
+satisfies the honest-environment conditions, the staked total reported by the State query, plus
+what was set aside for submitted batches and the ownerless stake swept into fees, is backed token
+for token: it equals what is in flight to the staker, delivered to the staker, or refunded and
+earmarked for re-send to the staker (plus the re-basing term a ResumeContract with non-matching
+totals introduces).  This is `N1` and `F1` over one and the same history counters -/
+theorem C01_backed {env : Env} {info : Info} {msg : InstantiateMsg} {c0 : CState} {out : List SubMsg}
+    (hi : instantiate env info msg = .ok (c0, out)) (self pfx : String) (t hgt : Nat) (evs : List Event)
+    (hok : AllOK (bootWorld c0 self pfx t hgt) evs) :
+    let r := runW (bootWorld c0 self pfx t hgt) {} evs
+    (r.1.c.st.totalNative : Int) + r.2.setAside + r.2.swept
+      = (locW r.1.c.config.native.staker r.1.c.config.proto.ibcDenom r.1.pkts : Int)
+        + locC r.1.c.config.native.staker r.1.c.config.proto.ibcDenom r.1.c + r.2.rebaseN := by
+  have h := world_history_winv hi self pfx t hgt evs hok
+  have h1 := h.n1
+  have h2 := h.f1
+  simp only
+  omega
 
 /-! non-vacuity of `C01_located`: the demo history (two stakes, a refund and recovery of an LST packet,
 rewards) satisfies the conditions; 3900 forwarded, 3900 in flight to the staker -/
